@@ -17,6 +17,8 @@ package gitindex_test
 // nothing for ignored paths and gitlinks.
 
 import (
+	"bytes"
+	"crypto/sha1"
 	"encoding/json"
 	"fmt"
 	"os"
@@ -93,16 +95,16 @@ func (e *c14Entry) blob() []byte {
 	if e.Pad <= 0 {
 		return []byte(e.Text)
 	}
-	b := make([]byte, 0, len(e.Text)+e.Pad)
+	b := make([]byte, 0, len(e.Text)+e.Pad+len(c14Filler))
 	b = append(b, e.Text...)
-	for len(b) < len(e.Text)+e.Pad {
-		n := len(e.Text) + e.Pad - len(b)
-		if n > len(c14Filler) {
-			n = len(c14Filler)
-		}
-		b = append(b, c14Filler[:n]...)
-	}
-	return b
+	b = append(b, bytes.Repeat([]byte(c14Filler), e.Pad/len(c14Filler)+1)...)
+	return b[:len(e.Text)+e.Pad]
+}
+
+// c14Sum identifies a byte string (large blobs make poor map keys).
+func c14Sum(b string) string {
+	h := sha1.Sum([]byte(b))
+	return string(h[:])
 }
 
 func genC14Entry(g vgU, path string, sizeMax int) c14Entry {
@@ -215,11 +217,19 @@ func genC14Bulk(g vgU, forced bool) c14Case {
 	var es []c14Entry
 	n := g.Int(9, 11, "nbulk")
 	if forced && n < 10 {
-		n = 10 // the forced case: all text and a blob after the slab rollover, so a damaged slab is visible
+		n = 10
 	}
 	for i := 0; i < n; i++ {
 		e := c14Entry{Path: fmt.Sprintf("bulk/%c%02d.dat", 'a'+byte(g.N(3, "bulkdir")), i), Kind: "file"}
-		if g.Bool(70, "bulktext") || forced {
+		text := g.Bool(40, "bulktext")
+		if forced {
+			// the forced case: blobs are read in this order, the first eight
+			// (rejected as binary after reading, hence cheap) fill the first
+			// slab, and the text blobs after the rollover are visible in the index
+			e.Path = fmt.Sprintf("bulk/a%02d.dat", i)
+			text = i >= 8
+		}
+		if text {
 			e.Text = kit.Text(fmt.Sprintf("bulk text blob %d\n", i))
 		} else {
 			e.Text = kit.Text(fmt.Sprintf("bulk binary blob %d\x00\n", i))
@@ -233,7 +243,7 @@ func genC14Bulk(g vgU, forced bool) c14Case {
 		}
 	}
 	c.Branches = []c14Branch{{Name: "main", Entries: es}}
-	if g.Bool(40, "second") {
+	if !forced && g.Bool(40, "second") {
 		// a second branch that shares most blobs
 		var es2 []c14Entry
 		for i, e := range es {
@@ -253,7 +263,7 @@ func genC14Bulk(g vgU, forced bool) c14Case {
 
 func genC14(rt *rapid.T) c14Case {
 	g := vgU{T: rt}
-	bulkPct := 3
+	bulkPct := 2
 	if os.Getenv("VERIF_TIER") == "thorough" {
 		bulkPct = 6
 	}
@@ -396,6 +406,9 @@ type c14Doc struct {
 }
 
 func (d c14Doc) key() string {
+	if len(d.Content) > 4096 {
+		return d.Name + "\x00" + strings.Join(d.Branches, ",") + "\x00sha1:" + c14Sum(d.Content)
+	}
 	return d.Name + "\x00" + strings.Join(d.Branches, ",") + "\x00" + d.Content
 }
 
@@ -415,6 +428,7 @@ func c14Model(c *c14Case, indexed []string, trees [][]c14Entry) ([]c14Doc, c14Fe
 	var order []pb
 	lab := map[string]bool{}
 	pathBlobs := map[string]map[string]bool{}
+	total := 0 // bytes of the distinct (path, blob) pairs: what one indexing run reads
 	blobPaths := map[string]map[string]bool{}
 	for bi, name := range indexed {
 		var ig []byte
@@ -438,7 +452,9 @@ func c14Model(c *c14Case, indexed []string, trees [][]c14Entry) ([]c14Doc, c14Fe
 				lab["ignore:path-ignored"] = true
 				continue
 			}
-			k := pb{e.Path, string(blob)}
+			hsum := sha1.Sum(blob)
+			id := string(hsum[:]) // stands for the blob
+			k := pb{e.Path, id}
 			d := docs[k]
 			if d == nil {
 				exp := vgExpectContent(e.Path, blob, c.SizeMax, c.LargeFiles)
@@ -470,11 +486,12 @@ func c14Model(c *c14Case, indexed []string, trees [][]c14Entry) ([]c14Doc, c14Fe
 				if pathBlobs[e.Path] == nil {
 					pathBlobs[e.Path] = map[string]bool{}
 				}
-				pathBlobs[e.Path][string(blob)] = true
-				if blobPaths[string(blob)] == nil {
-					blobPaths[string(blob)] = map[string]bool{}
+				pathBlobs[e.Path][id] = true
+				if blobPaths[id] == nil {
+					blobPaths[id] = map[string]bool{}
 				}
-				blobPaths[string(blob)][e.Path] = true
+				blobPaths[id][e.Path] = true
+				total += len(blob)
 			}
 			d.Branches = append(d.Branches, name)
 		}
@@ -503,10 +520,6 @@ func c14Model(c *c14Case, indexed []string, trees [][]c14Entry) ([]c14Doc, c14Fe
 				lab["identical-directories-in-one-branch"] = true
 			}
 		}
-	}
-	total := 0
-	for _, k := range order {
-		total += len(k.blob)
 	}
 	if total > 16<<20 {
 		lab["bulk:blobs-over-16MiB"] = true
@@ -789,7 +802,7 @@ func runC14(rec *kit.Recorder, c c14Case) error {
 
 func TestVerif_C14(t *testing.T) {
 	rec := kit.Open(t, "C14",
-		"rapid-generated repositories (go-git plumbing objects, optionally repacked with the git binary) with 1-3 branches derived from a common base tree by entry changes/drops/additions/kind changes/duplicated blobs; entries are regular, executable, symlink or gitlink, nested up to 3 levels; blobs empty, < 3 bytes, with NUL, non-UTF-8, around SizeMax (-1, =, +1, 3x) and > 512 KiB; optional .sourcegraph/ignore per branch; whole directories copied to a second path of the same branch (identical tree objects), possibly diverging on another branch; a rare bulk shape (3 % quick / 6 % thorough, plus one forced case per run) with 9-11 blobs of ~2 MB so that one run reads > 16 MiB of blobs; options SizeMax, LargeFiles (incl. negations), ShardMax, BranchPrefix, legacy repository opening, HEAD indexed; each repository indexed through the go-git blob path and the git cat-file path and both read back shard by shard; a case = one repository + options; non-trivial = >= 2 indexed branches with a document on >= 2 branches, a document not on all branches and at least one special entry/blob kind; distinct by hash of the case",
+		"rapid-generated repositories (go-git plumbing objects, optionally repacked with the git binary) with 1-3 branches derived from a common base tree by entry changes/drops/additions/kind changes/duplicated blobs; entries are regular, executable, symlink or gitlink, nested up to 3 levels; blobs empty, < 3 bytes, with NUL, non-UTF-8, around SizeMax (-1, =, +1, 3x) and > 512 KiB; optional .sourcegraph/ignore per branch; whole directories copied to a second path of the same branch (identical tree objects), possibly diverging on another branch; a rare bulk shape (2 % quick / 6 % thorough, plus one forced case per run) with 9-11 blobs of ~2 MB so that one run reads > 16 MiB of blobs; options SizeMax, LargeFiles (incl. negations), ShardMax, BranchPrefix, legacy repository opening, HEAD indexed; each repository indexed through the go-git blob path and the git cat-file path and both read back shard by shard; a case = one repository + options; non-trivial = >= 2 indexed branches with a document on >= 2 branches, a document not on all branches and at least one special entry/blob kind; distinct by hash of the case",
 		"ignore patterns are drawn from a subset with unambiguous documented meaning: patterns without any of .][*? are path prefixes (implicit trailing **), otherwise * and ? match inside one path segment and the whole path must match; comments, blank lines, surrounding blanks, a leading / and CRLF line ends are covered; ** inside explicit patterns, character classes and braces are not generated",
 		"LargeFiles patterns are literal paths, single-segment * globs and a leading **/ (doublestar: zero or more directories), judged by the harness' own matcher",
 		"blobs not exempted by LargeFiles stay below the trigram limit (short ones by size, the 2 MB bulk text blobs by repeating a 17-byte filler), so the only skip reasons are too large / too small / binary",
